@@ -18,6 +18,9 @@ ASSUMPTIONS = ["ref/xml_tokenizer.json reviewed (snapshot of the code after the 
 
 
 def run(ctx):
+    ctx.rule("R15.10", "= R03.15 for xml5ever: end() runs the machine over the queue before eof_step")
+    from . import tokrules as _tr10
+    ctx.guard("R15.10", "end-runs/xml", lambda: _tr10.end_runs_before_eof(ctx, "R15.10", "xml"))
     ctx.rule("R15.9", "XmlParser::process feeds the tokenizer until it is done: a script suspension does not leave the rest of the chunk queued")
     from . import tokrules as _tr9
     ctx.guard("R15.9", "driver", lambda: _tr9.driver_feeds_until_done(ctx, "R15.9", "xml_driver", "XmlParser<Sink>[TendrilSink<tendril::fmt::UTF8>]::process", "xml5ever driver process"))
